@@ -251,6 +251,7 @@ func one(raw json.RawMessage) interface{} {
 func abnormal(raw json.RawMessage, timeout bool, stderr string) interface{} {
 	var c Case
 	json.Unmarshal(raw, &c)
+	c.Req.NewChars = chars(c.Req.New)
 	return Record{Case: c.Case, Req: c.Req, Texts: []Text{}, Sites: []Site{}, Model1: []TypeM{}, Model2: []TypeM{}, Panic: true, Note: "process died: " + stderr}
 }
 
